@@ -257,6 +257,9 @@ func (b *Base) removeAll(name string) error {
 }
 func (b *Base) rename(oldname, newname string) error {
 	if err := b.call("Rename"); err != nil {
+		if b.Partial { // (second fault flavour for Rename: a bare error, as a store failure passed through unwrapped)
+			return err
+		}
 		return &hackpadfs.LinkError{Op: "rename", Old: oldname, New: newname, Err: err}
 	}
 	return b.Inner.(hackpadfs.RenameFS).Rename(oldname, newname)
